@@ -12,7 +12,7 @@ func init() {
 		Explanation: "Decides the 'one atomic write per applied entry, including the applied index' mechanism and the recovery path: (R1) applyAdd issues exactly one Store.Mutate whose batch holds the tree mutations and the FSM-state marker, with {previous,new} version metadata, publishes the in-memory state after it and aborts on any failure; " +
 			"(R2) that is the only store write of the node (single writer); (R3) RocksDBStore.Mutate puts every mutation into one write batch (log data first) and writes once; (R4) the replay filter (finite order model) guards applyAdd; (R5) start-up recovers balloon and FSM state before raft starts and returns their errors; " +
 			"(R6) error discipline on the recovery path; (R7) caches are rebuilt from the store on open (constructors must-call RefreshVersion / RebuildCache; rebuild consumes exactly what was read).",
-		Added:       "Also (R7) one recovery level for writers and rebuild, tiles persisted whenever cached; (R8) no store write bypasses the write-ahead log; the transfer load succeeds only on io.EOF (R6).",
+		Added:       "Also (R7) one recovery level for writers and rebuild, tiles persisted whenever cached; (R8) no store write bypasses the write-ahead log; the transfer load succeeds only on io.EOF (R6). Third round: (R5) loadState installs the state it decoded; (R1) nothing on the apply path recovers; (R7) a reader reports an error only together with an empty chunk.",
 		Assumptions: []string{"RocksDB write batches are atomic and durable as configured", "raft replays committed entries after restart"},
 		Declined:    "behaviour at arbitrary SIGKILL instants, torn writes, that acknowledged snapshots remain verifiable (raft/RocksDB durability).",
 	}, runC07)
@@ -73,9 +73,9 @@ func rocksMutate(c *Ctx, rule string) {
 	p := c.P
 	fn := p.MustMethod("storage/rocks", "RocksDBStore", "Mutate")
 	name := funcName(fn)
-	var newBatch, logData, write []ssa.Instruction
-	var puts []ssa.Instruction
-	eachInstr(fn, func(in ssa.Instruction) {
+	rg := p.RegionOf(fn, 3)
+	var newBatch, logData, write, puts []regionInstr
+	rg.Instrs(func(site regionSite, in ssa.Instruction) {
 		cc := callCommon(in)
 		if cc == nil {
 			return
@@ -87,44 +87,45 @@ func rocksMutate(c *Ctx, rule string) {
 		if f == nil {
 			return
 		}
+		ri := regionInstr{site, in}
 		switch {
 		case f.Name() == "NewWriteBatch":
-			newBatch = append(newBatch, in)
+			newBatch = append(newBatch, ri)
 		case f.Name() == "PutLogData":
-			logData = append(logData, in)
+			logData = append(logData, ri)
 		case f.Name() == "PutCF" || f.Name() == "Put":
-			puts = append(puts, in)
-		case (f.Name() == "Write" || f.Name() == "WriteWithoutWAL") && namedIs(f.Signature.Recv().Type(), "rocksdb", "DB"):
-			write = append(write, in)
-		case f.Name() == "Clear":
+			puts = append(puts, ri)
+		case (f.Name() == "Write" || f.Name() == "WriteWithoutWAL") && f.Signature.Recv() != nil && namedIs(f.Signature.Recv().Type(), "rocksdb", "DB"):
+			write = append(write, ri)
+		case f.Name() == "Clear" && f.Signature.Recv() != nil && namedIs(f.Signature.Recv().Type(), "rocksdb", "WriteBatch"):
 			c.Fail(rule, name+":batch-cleared", in.Pos(), "the write batch is cleared inside Mutate: one Mutate must be one transaction")
 		}
 	})
 	var why []string
-	if len(newBatch) != 1 || inCycle(newBatch[0].Block()) {
+	if len(newBatch) != 1 || rg.InCycle(newBatch[0]) {
 		why = append(why, fmt.Sprintf("%d write batches created", len(newBatch)))
 	}
-	if len(write) != 1 || (len(write) == 1 && inCycle(write[0].Block())) {
-		why = append(why, fmt.Sprintf("%d db.Write calls (in a loop: %v) — a Mutate must be exactly one transaction", len(write), len(write) > 0 && inCycle(write[0].Block())))
+	if len(write) != 1 || (len(write) == 1 && rg.InCycle(write[0])) {
+		why = append(why, fmt.Sprintf("%d db.Write calls (in a loop: %v) — a Mutate must be exactly one transaction", len(write), len(write) > 0 && rg.InCycle(write[0])))
 	}
 	if len(logData) != 1 {
 		why = append(why, fmt.Sprintf("%d PutLogData calls", len(logData)))
 	}
-	if len(puts) != 1 || !inCycle(puts[0].Block()) {
+	if len(puts) != 1 || !rg.InCycle(puts[0]) {
 		why = append(why, fmt.Sprintf("%d put sites, expected one inside the loop over the mutations", len(puts)))
 	}
 	if len(why) == 0 {
 		// log data first, with the metadata parameter
-		ld := callCommon(logData[0])
-		if !instrBefore(logData[0], puts[0]) {
+		ld := callCommon(logData[0].in)
+		if !rg.Before(logData[0], puts[0]) {
 			why = append(why, "PutLogData does not precede the puts (the reader expects the metadata first in the batch)")
 		}
-		if !p.TermOf(ld.Args[1]).IsParam(fn, 2) {
-			why = append(why, "log data is "+p.TermOf(ld.Args[1]).String()+", not the metadata parameter")
+		if lt := rg.Term(logData[0].site, ld.Args[1]); !lt.IsParam(fn, 2) {
+			why = append(why, "log data is "+lt.String()+", not the metadata parameter")
 		}
 		// the put: handle of the mutation's own table, its key, its value; loop over the whole slice
-		pc := callCommon(puts[0])
-		h, k, v := p.TermOf(pc.Args[1]), p.TermOf(pc.Args[2]), p.TermOf(pc.Args[3])
+		pc := callCommon(puts[0].in)
+		h, k, v := rg.Term(puts[0].site, pc.Args[1]), rg.Term(puts[0].site, pc.Args[2]), rg.Term(puts[0].site, pc.Args[3])
 		isElem := func(t *Term) bool { return t.Op == "index" && t.Args[0].IsParam(fn, 1) }
 		okH := h.Op == "index" && h.Args[0].IsField("cfHandles", isParam(fn, 0)) && h.Args[1].IsField("Table", isElem)
 		okKV := k.IsField("Key", isElem) && v.IsField("Value", isElem)
@@ -133,7 +134,7 @@ func rocksMutate(c *Ctx, rule string) {
 			why = append(why, fmt.Sprintf("put(handle=%s, key=%s, value=%s): expected the handle of m.Table with m.Key, m.Value of the same mutation m", h, k, v))
 		}
 		// loop bound: i < len(mutations) and no other exit from the loop than the bound
-		cs := p.CondsAt(puts[0].Block())
+		cs := rg.Conds(puts[0])
 		if !hasCond(cs, func(k Cond) bool {
 			return k.Pol && k.Atom.Op == "LT" && k.Atom.Args[1].Op == "builtin" && k.Atom.Args[1].Name == "len" && k.Atom.Args[1].Args[0].IsParam(fn, 1)
 		}) {
@@ -151,13 +152,13 @@ func rocksMutate(c *Ctx, rule string) {
 			}
 		}
 		// write: after the loop, with the batch; result returned
-		wc := callCommon(write[0])
-		if !(p.TermOf(wc.Args[2]).String() == p.TermOf(newBatch[0].(ssa.Value)).String()) {
+		wc := callCommon(write[0].in)
+		if !(rg.Term(write[0].site, wc.Args[2]).String() == rg.Term(newBatch[0].site, newBatch[0].in.(ssa.Value)).String()) {
 			why = append(why, "db.Write is not given the batch that was filled")
 		}
 		ret := false
-		for _, rt := range p.ReturnTerms(fn) {
-			if rt[0].V == write[0].(ssa.Value) {
+		for _, rc := range rg.ReturnCases(0) {
+			if rc.T.V == write[0].in.(ssa.Value) || rc.T.Has(func(x *Term) bool { return x.V == write[0].in.(ssa.Value) }) {
 				ret = true
 			}
 		}
